@@ -109,6 +109,9 @@ theorem step_consts (kind : Kind) (h : Nat → Nat) (c : Nat × Nat) (s s' : Sta
   case front t => split at hst <;> first | (cases hst; exact hc) | cases hst
   case back t => split at hst <;> first | (cases hst; exact hc) | cases hst
   case equal t u => split at hst <;> first | (cases hst; exact hc) | cases hst
+  case notEqual t u => split at hst <;> first | (cases hst; exact hc) | cases hst
+  case iterBack t => cases hst; exact hc
+  case entryAt t pos => split at hst <;> first | (cases hst; exact hc) | cases hst
 
 theorem run_consts (kind : Kind) (h : Nat → Nat) (c : Nat × Nat) (ops : List Op) (s s' : State) (outs : List Out)
     (hc : CInv c s) (hr : run kind h s ops = some (s', outs)) : CInv c s' := by
